@@ -483,6 +483,8 @@ func runC01(c *rt.Ctx) {
 			check("json.Unmarshal", j, err)
 		})
 	}
+	date.MaxInputLength = 10
+	refillRun(c, c.Pick(40000, 400000), "date", "date-json")
 	coldStart(c, "C01", 14)
 	c.Extra("local_zones", len(hostileZones()))
 	c.Require("local-zone-sweep", int64(len(hostileZones())))
